@@ -31,6 +31,26 @@ CHECKS = {
     note="Trusted: CrossHair's str model, z3; comment line = first non-blank chars are //; build-level harness uses 2 fixed models; "
          'concrete sub-computations of a build run untraced (vf/fast.py) - same real code, no stubs.',
     technique='symbolic execution of the real Python functions (CrossHair + z3) incl. full Builder.build with symbolic comment inputs'),
+ 'C20': dict(
+    cat='model_checking', ref='DESIGN.md §3 C20',
+    text='Bounded symbolic execution of the real cpp_gen building blocks: int-coded families of function/constructor/destructor '
+         'descriptions (type pool incl. const/ref/pointer/template/default values, all prefix/cv/override/initialisation/contents/scope '
+         'combinations) rendered by the real code and parsed back by a signature tokenizer; wide harnesses with symbolic names, '
+         'parameter names, initialisers and contents; struct/class/namespace balance. The compile clause is not claimed.',
+    note="Trusted: CrossHair's str model, z3, the tokenizer in props/c20.py. Symbolic default values cannot be exhausted (CrossHair "
+         'realises symbolic fields of formatted objects): that harness is bug-hunting only. Compiler acceptance: not covered.',
+    technique='symbolic execution of the real Python functions (CrossHair + z3); int-coded description families + symbolic strings'),
+ 'C14': dict(
+    cat='model_checking', ref='DESIGN.md §3 C14',
+    text='find_fqn/find_any/scope_resolution_order executed on every (declaration, name, scope) combination of a bounded family '
+         '(one declaration of each kind over a 2/3-identifier alphabet to depth 3; two declarations to depth 2) against a '
+         'set-comprehension specification; identifier validation decided for strings of unbounded length by a z3 regex-equivalence '
+         'query extracted from the source AST (cross-checked with cvc5) and by CrossHair for all unicode strings up to the bound; '
+         'notation round trips for all strings up to the bound.',
+    note='Identifiers are opaque to lookup (== only): the alphabet bounds distinct identifiers, not spelling. Trusted: CrossHair str/regex '
+         'model, z3 sequence/regex theory, the regex translator (vf/regex_smt.py; unsupported constructs => inconclusive).',
+    technique='symbolic execution (CrossHair + z3) of the real lookup code over an int-coded family + direct z3 regex equivalence (E2)',
+    engine='E1-crosshair + E2-z3-regex'),
 }
 
 NOT_APPLICABLE = {
